@@ -1,3 +1,186 @@
-(* placeholder while the harness is brought up; replaced by the real theorem file *)
-From SV Require Import SampleSize.
-Theorem C16_placeholder : forall n : nat, n = n. Proof. reflexivity. Qed.
+(* PC16.v — property C16: sample-size estimates are first-crossing times on the assumed data.
+   Only statements (`exact` of a lemma from SampleSize_proofs.v), Print Assumptions, and non-vacuity Examples.
+   Model: SampleSize.v (on top of NNM.v); tied to /repo by harness/c16.py on every run. *)
+From SV Require Import SampleSize SampleSize_proofs.
+Open Scope Q_scope.
+
+(* ---------------------------------------------------------------------------------------------------------------
+   1. The hypothetical population of the deterministic branch is the pilot data TILED to length N. *)
+Theorem C16_tiling : forall (N : nat) (x : list Q), x <> [] ->
+  length (tile_to N x x) = N /\
+  forall i d, (i < N)%nat -> nth i (tile_to N x x) d = nth (i mod length x) x d.
+Proof. exact tiling. Qed.
+Print Assumptions C16_tiling.
+(* non-vacuity: non-constant pilot data whose length does not divide N (np.repeat would give 0,0,1,1,1) *)
+Example C16_tiling_ex : tile_to 5 [0; 1; 1] [0; 1; 1] = [0; 1; 1; 0; 1].
+Proof. reflexivity. Qed.
+
+(* ---------------------------------------------------------------------------------------------------------------
+   2. NonnegMean.sample_size(x, alpha), reps None, returns the 1-based index of the first entry of the p-value
+      history of the test on the tiled population that is <= alpha (NaN entries never count), and N if there is none.
+      (k is determined uniquely by these conditions: SampleSize_proofs.is_first_crossing_unique.) *)
+Theorem C16_first_crossing : forall (sqrtq : Q -> Q) (c : cfg) (alpha : Q) (x : list Q) (n : Z),
+  cN c = Some n -> x <> [] ->
+  let N := Z.to_nat n in
+  let h := hist sqrtq c (tile_to N x x) in
+  exists k, ss_det sqrtq c alpha x = Ok k /\ k = crossing_or alpha N h /\
+    (((1 <= k <= length h)%nat /\ xle (nth (k - 1) h NaN) (Fin alpha) = true /\
+      forall j, (j < k - 1)%nat -> xle (nth j h NaN) (Fin alpha) = false)
+     \/ ((forall j, (j < length h)%nat -> xle (nth j h NaN) (Fin alpha) = false) /\ k = N)).
+Proof. exact ss_det_first_crossing. Qed.
+Print Assumptions C16_first_crossing.
+(* non-vacuity: Kaplan-Markov, x = (1, 1/2, 1/2), N = 5: history 1/2, 1/2, 1/2, 1/4, 1/4; risk limit 3/10 is first
+   met at position 4, inside the final partial copy of the pilot data *)
+Example C16_first_crossing_ex :
+  ss_det sqrt_exec (mkcfg (Some 5%Z) (1 # 2) 1 true (TKM 0)) (3 # 10) [1; 1 # 2; 1 # 2] = Ok 4%nat.
+Proof. vm_compute. reflexivity. Qed.
+
+(* the same at the level of an assertion (data None, reps None): the estimate is the first crossing of the
+   assertion's test on the constructed population, which has length N *)
+Theorem C16_assertion_first_crossing :
+  forall (sqrtq : Q -> Q) (draws : nat -> list Q) (quantile : Q -> list nat -> nat)
+         (a : asn) (r1 r2 : option Q) (prefix : bool) (q : Q) (k : nat) (n : Z),
+  cN (a_cfg a) = Some n ->
+  asn_find sqrtq draws quantile a None r1 r2 None prefix q = Ok k ->
+  exists pop, asn_population a r1 r2 = Ok pop /\ length pop = Z.to_nat n /\
+    let h := hist sqrtq (a_cfg a) pop in
+    k = crossing_or (a_alpha a) (Z.to_nat n) h /\
+    (((1 <= k <= length h)%nat /\ xle (nth (k - 1) h NaN) (Fin (a_alpha a)) = true /\
+      forall j, (j < k - 1)%nat -> xle (nth j h NaN) (Fin (a_alpha a)) = false)
+     \/ ((forall j, (j < length h)%nat -> xle (nth j h NaN) (Fin (a_alpha a)) = false) /\ k = Z.to_nat n)).
+Proof. exact asn_find_first_crossing. Qed.
+Print Assumptions C16_assertion_first_crossing.
+
+(* ---------------------------------------------------------------------------------------------------------------
+   3. Prefix invariance of the simulation branch.  `draws` (numpy's Mersenne Twister) is arbitrary; `quantile` is any
+      function fixing constant lists; `nonanticipating` (entry j of the history does not depend on later data, as long
+      as later data exist) is a HYPOTHESIS here: it is property C05 (C05_tail), proved for the shipped tests in
+      NNM_proofs.v; below it is discharged for Kaplan-Markov to show the statement is not vacuous.
+      Two cases, as in DESIGN section 7 (boundary conventions): the prefix's own history crosses at k strictly before
+      its last entry; or at k <= |x| when the entry at |x| is computed unclamped, i.e. as an interior entry of a longer
+      sample (the `terms[-1] = inf if Stot > N t` override applies to the last entry of whatever sample is tested). *)
+Theorem C16_prefix_invariant :
+  forall (sqrtq : Q -> Q) (draws : nat -> list Q) (quantile : Q -> list nat -> nat),
+  (forall q k n, 0 <= q <= 1 -> quantile q (repeat k (S n)) = k) ->
+  forall (c : cfg) (alpha : Q) (x : list Q) (reps : nat) (q : Q) (n : Z) (k : nat),
+  cN c = Some n ->
+  nonanticipating (hist sqrtq c) ->
+  (1 <= reps)%nat -> 0 <= q <= 1 ->
+  ((first_crossing alpha 0 (hist sqrtq c x) = Some k /\ (k < length x)%nat)
+   \/ (exists d0, d0 <> [] /\ (forall r, (r < reps)%nat -> draws r <> []) /\
+                  first_crossing alpha 0 (firstn (length x) (hist sqrtq c (x ++ d0))) = Some k)) ->
+  (forall r, (r < reps)%nat -> sim_one sqrtq draws c alpha (Z.to_nat n) true x r = k) /\
+  ss_sim sqrtq draws quantile c alpha x reps true q = Ok k.
+Proof. exact prefix_invariant. Qed.
+Print Assumptions C16_prefix_invariant.
+(* non-vacuity: every hypothesis is met by Kaplan-Markov (non-anticipating: km_nonanticipating), numpy's linear
+   quantile (np_quantile_const), prefix (1, 1, 1/2) with history 1/2, 1/4, 1/4 crossing 3/10 at k = 2 < 3, and
+   arbitrary draws; the conclusion is obtained FROM the theorem, not by evaluation *)
+Example C16_prefix_invariant_ex : forall draws reps q, (1 <= reps)%nat -> 0 <= q <= 1 ->
+  ss_sim sqrt_exec draws np_quantile (mkcfg (Some 6%Z) (1 # 2) 1 true (TKM 0)) (3 # 10) [1; 1; 1 # 2] reps true q = Ok 2%nat.
+Proof.
+  intros draws reps q Hr Hq.
+  apply (C16_prefix_invariant sqrt_exec draws np_quantile np_quantile_const _ _ _ reps q 6%Z 2%nat);
+    [ reflexivity | apply km_nonanticipating | exact Hr | exact Hq
+    | left; split; [vm_compute; reflexivity | simpl; lia] ].
+Qed.
+
+(* ---------------------------------------------------------------------------------------------------------------
+   4. Comparison / ONEAudit: the constructed population is the error-free overstatement-assorter value everywhere,
+      except a one-vote overstatement at every k1-th position and (overriding it) a two-vote overstatement, value 0, at
+      every k2-th position, counted from position 0, with k = int(1/rate); a rate of None or 0 places nothing;
+      rate_1 = None means (1 - margin)/2, rate_1 = 0 means none. *)
+Theorem C16_overstatement_layout : forall (a : asn) (r1 r2 : option Q) (pop : list Q) (m : Q) (n : Z),
+  a_type a <> Polling -> a_margin a = Some m -> cN (a_cfg a) = Some n ->
+  asn_population a r1 r2 = Ok pop ->
+  let N := Z.to_nat n in
+  let big := make_overstatement (a_ub a) m 0 in
+  let small := make_overstatement (a_ub a) m (1 # 2) in
+  let r1' := Some (match r1 with Some r => r | None => (1 - m) / 2 end) in
+  length pop = N /\
+  forall i d, (i < N)%nat -> nth i pop d = if rate_hit r2 i then 0 else if rate_hit r1' i then small else big.
+Proof. exact asn_population_layout. Qed.
+Print Assumptions C16_overstatement_layout.
+(* the step used by rate_hit is the integer part of 1/rate *)
+Theorem C16_rate_step : forall q : Q, 0 < q ->
+  inject_Z (rate_step q) * q <= 1 /\ 1 < (inject_Z (rate_step q) + 1) * q.
+Proof. exact rate_step_floor. Qed.
+Print Assumptions C16_rate_step.
+(* non-vacuity: N = 8, margin 1/2, u = 1: clean value 2/3, one-vote value 1/3; rate_1 = 1/4, rate_2 = 1/8 *)
+Example C16_overstatement_layout_ex :
+  match asn_population (mkasn Comparison false (mkcfg (Some 8%Z) (1 # 2) (4 # 3) true (TKM 0)) (1 # 20) (Some (1 # 2)) 1 None)
+                       (Some (1 # 4)) (Some (1 # 8)) with
+  | Ok pop => all2 Qeq_bool pop [0; 2 # 3; 2 # 3; 2 # 3; 1 # 3; 2 # 3; 2 # 3; 2 # 3]
+  | Err _ => false
+  end = true.
+Proof. vm_compute. reflexivity. Qed.
+(* rate_1 exactly 0 places no one-vote overstatement (it is not replaced by the default (1 - margin)/2) *)
+Example C16_overstatement_layout_ex0 :
+  match asn_population (mkasn OneAudit false (mkcfg (Some 4%Z) (1 # 2) (4 # 3) true (TKM 0)) (1 # 20) (Some (1 # 2)) 1 None)
+                       (Some 0) None with
+  | Ok pop => all2 Qeq_bool pop [2 # 3; 2 # 3; 2 # 3; 2 # 3]
+  | Err _ => false
+  end = true.
+Proof. vm_compute. reflexivity. Qed.
+
+(* ---------------------------------------------------------------------------------------------------------------
+   5. Interleaving.  For every n_small, n_med, n_big with at least one value requested, interleave_values returns
+      (no exception) a list of length N holding exactly n_small, n_med, n_big values of each kind.  This covers the
+      clause "n_big >= 1 or N <= 1" of the design and, since the repair of interleave_values, n_big = 0 as well.
+      N = 0 is the raising branch (IndexError), modelled as an error value. *)
+Theorem C16_interleave_counts : forall ns nm nb : nat,
+  ((1 <= ns + nm + nb)%nat ->
+   exists l, interleave_tags ns nm nb = Ok l /\ length l = (ns + nm + nb)%nat /\
+             count_tag TSmall l = ns /\ count_tag TMed l = nm /\ count_tag TBig l = nb)
+  /\ interleave_tags 0 0 0 = Err EIndex.
+Proof. exact (fun ns nm nb => conj (interleave_counts ns nm nb) interleave_empty). Qed.
+Print Assumptions C16_interleave_counts.
+(* in terms of the returned numbers, when the three values differ *)
+Theorem C16_interleave_values : forall (small med big : Q) (l : list tag),
+  ~ small == med -> ~ small == big -> ~ med == big ->
+  count_q small (map (tag_value small med big) l) = count_tag TSmall l /\
+  count_q med (map (tag_value small med big) l) = count_tag TMed l /\
+  count_q big (map (tag_value small med big) l) = count_tag TBig l.
+Proof. exact count_q_tags. Qed.
+Print Assumptions C16_interleave_values.
+(* polling assertions: the constructed population is the interleaving of tally[loser] zeros, tally[winner] values u
+   and the remaining cards at 1/2 *)
+Theorem C16_polling_population : forall (a : asn) (r1 r2 : option Q) (pop : list Q) (n : Z),
+  a_type a = Polling -> cN (a_cfg a) = Some n -> asn_population a r1 r2 = Ok pop ->
+  let N := Z.to_nat n in
+  exists n0 nb tags, a_tally a = Some (n0, nb) /\ (n0 + nb <= N)%nat /\
+    interleave_tags n0 (N - n0 - nb) nb = Ok tags /\ pop = map (tag_value 0 (1 # 2) (a_ub a)) tags /\
+    length tags = N /\ count_tag TSmall tags = n0 /\ count_tag TMed tags = (N - n0 - nb)%nat /\ count_tag TBig tags = nb.
+Proof. exact asn_population_polling. Qed.
+Print Assumptions C16_polling_population.
+(* non-vacuity: (2, 1, 0) — the input on which the unrepaired code raised ZeroDivisionError *)
+Example C16_interleave_ex : interleave_tags 2 1 0 = Ok [TSmall; TMed; TSmall].
+Proof. vm_compute. reflexivity. Qed.
+Example C16_interleave_ex2 : interleave_values 1 2 3 0 (1 # 2) 1 = Ok [0; 1; 1 # 2; 1; 1 # 2; 1].
+Proof. vm_compute. reflexivity. Qed.
+
+(* ---------------------------------------------------------------------------------------------------------------
+   6. A contest's estimate is the largest of its assertions' estimates (and an exception in any assertion
+      propagates: there is no Ok result unless every assertion returned one). *)
+Theorem C16_contest_max :
+  forall (sqrtq : Q -> Q) (draws : nat -> list Q) (quantile : Q -> list nat -> nat)
+         (asns : list (asn * option (list Q))) (r1 r2 : option Q) (reps : option nat) (q : Q) (M : nat),
+  contest_find sqrtq draws quantile asns r1 r2 reps q = Ok M <->
+  exists ks, Forall2 (fun ad k => asn_find sqrtq draws quantile (fst ad) (snd ad) r1 r2 reps false q = Ok k) asns ks
+             /\ M = list_max ks.
+Proof. exact contest_max. Qed.
+Print Assumptions C16_contest_max.
+(* list_max ks is an upper bound attained in ks (stdlib list_max_le; attained: *)
+Theorem C16_contest_max_attained : forall ks : list nat, ks <> [] -> In (list_max ks) ks.
+Proof. exact list_max_In. Qed.
+Print Assumptions C16_contest_max_attained.
+(* non-vacuity: two Kaplan-Markov assertions of a comparison contest with margins 1/2 and 1/4, N = 20, no errors
+   assumed (rate_1 = rate_2 = 0): (3/4)^k <= 1/5 first at k = 6, (7/8)^k <= 1/5 first at k = 13 *)
+Example C16_contest_max_ex :
+  let a m u := mkasn Comparison false (mkcfg (Some 20%Z) (1 # 2) u true (TKM 0)) (1 # 5) (Some m) 1 None in
+  let run := contest_find sqrt_exec (fun _ => []) np_quantile in
+  (run [(a (1 # 2) (4 # 3), None)] (Some 0) (Some 0) None (1 # 2),
+   run [(a (1 # 4) (8 # 7), None)] (Some 0) (Some 0) None (1 # 2),
+   run [(a (1 # 2) (4 # 3), None); (a (1 # 4) (8 # 7), None)] (Some 0) (Some 0) None (1 # 2))
+  = (Ok 6%nat, Ok 13%nat, Ok 13%nat).
+Proof. vm_compute. reflexivity. Qed.
